@@ -31,6 +31,7 @@ type SConn struct {
 	isClosed bool
 	isGone   bool
 	isEOF    bool
+	nfailed  int // Writes that failed because the peer is gone
 	// MaxWrite, if > 0, makes Write accept at most MaxWrite(len) bytes (partial writes).
 	MaxWrite func(n int) int
 }
@@ -84,6 +85,9 @@ func (c *SConn) Write(b []byte) (int, error) {
 	case <-c.closed:
 		return 0, net.ErrClosed
 	case <-c.gone:
+		c.mu.Lock()
+		c.nfailed++
+		c.mu.Unlock()
 		return 0, ErrPeerGone
 	default:
 	}
@@ -101,9 +105,15 @@ func (c *SConn) Write(b []byte) (int, error) {
 	case <-c.closed:
 		return 0, net.ErrClosed
 	case <-c.gone:
+		c.mu.Lock()
+		c.nfailed++
+		c.mu.Unlock()
 		return 0, ErrPeerGone
 	}
 }
+
+// FailedWrites: how many Writes of the client failed because the peer is gone.
+func (c *SConn) FailedWrites() int { c.mu.Lock(); defer c.mu.Unlock(); return c.nfailed }
 
 func (c *SConn) Close() error {
 	c.mu.Lock()
